@@ -26,6 +26,9 @@ def main():
         if payload.get("engine") == "ecs":
             import ecs
             sys.exit(ecs.replay_file(payload))
+        if payload.get("engine") == "ecs-mask":
+            import ecs
+            sys.exit(ecs.replay_mask(payload))
         import essa
         sys.exit(essa.replay_file(payload))
     if not args.prop:
